@@ -193,6 +193,44 @@ def _pyval(v):
     return str(v)
 
 
+class ObLite:
+    """what the accounting needs of an obligation discharged in a worker process"""
+
+    def __init__(self, ob):
+        self.name, self.line, self.kind, self.key = ob.name, ob.line, ob.kind, ob.key
+        self.goal_true = bool(z3.is_true(ob.goal))
+        self.goal = str(ob.goal)[:400] if ob.kind in ("post", "inv-step") and not self.goal_true else ""
+        self.pc = [None] * len(ob.pc)
+
+
+def _goal_true(ob):
+    return ob.goal_true if isinstance(ob, ObLite) else z3.is_true(ob.goal)
+
+
+def _unit_job(pid, idx, timeout_ms, tier):
+    """worker: one unit, all obligations; returns None unless everything was
+    discharged (the parent then redoes the unit itself)"""
+    os.environ["VERIF_JOBS"] = "2"
+    mod = importlib.import_module(f"contracts.{pid}")
+    unit = mod.UNITS[idx]
+    try:
+        eng = engine.Engine()
+        obs, rep = eng.verify(unit)
+        res = solve.discharge(obs, timeout_ms, cross_check=(tier == "thorough"))
+    except Exception:
+        return None
+    finally:
+        solve.close_pool()
+    for ob, r in zip(obs, res):
+        if ob.kind == "canary":
+            continue
+        if r["verdict"] != "unsat":
+            return None
+    lite = [ObLite(ob) for ob in obs]
+    res = [{k: v for k, v in r.items() if k != "model"} for r in res]
+    return rep, lite, res
+
+
 # ----------------------------------------------------------------------------
 class Run:
     def __init__(self, pid, tier, seed):
@@ -221,9 +259,20 @@ class Run:
     def run_units(self):
         eng = engine.Engine()
         mod = self.mod
-        for unit in getattr(mod, "UNITS", []):
+        pre = {}
+        if getattr(mod, "PARALLEL_UNITS", False) and not os.environ.get("VERIF_SERIAL"):
+            pre = self.prefetch_units()
+        for idx, unit in enumerate(getattr(mod, "UNITS", [])):
             rec = {"function": unit.name, "file": unit.path, "qualname": unit.qualname}
             self.units.append(rec)
+            if idx in pre:
+                # every obligation of this unit was discharged in a worker process:
+                # account its summary; anything else is redone here with the full
+                # machinery (counterexample extraction, replay)
+                rep, lite, res = pre[idx]
+                rec.update(rep)
+                self.account(unit, rec, lite, res)
+                continue
             try:
                 obs, rep = eng.verify(unit)
             except engine.Unsupported as ex:
@@ -240,6 +289,29 @@ class Run:
             rec.update(rep)
             res = solve.discharge(obs, self.timeout_ms(), cross_check=(self.tier == "thorough"))
             self.account(unit, rec, obs, res)
+
+    def prefetch_units(self):
+        """generate and discharge the units of this property in parallel worker
+        processes (one unit per task); returns {index: (report, obligations-lite,
+        results)} for the units whose obligations were all discharged"""
+        from concurrent.futures import ProcessPoolExecutor
+        import multiprocessing as mp
+        units = getattr(self.mod, "UNITS", [])
+        n = min(len(units), int(os.environ.get("VERIF_JOBS", "0")) or min(16, os.cpu_count() or 4))
+        if n < 2:
+            return {}
+        solve.close_pool()
+        out = {}
+        with ProcessPoolExecutor(max_workers=n, mp_context=mp.get_context("fork")) as ex:
+            futs = {i: ex.submit(_unit_job, self.pid, i, self.timeout_ms(), self.tier) for i in range(len(units))}
+            for i, fu in futs.items():
+                try:
+                    r = fu.result()
+                except Exception:
+                    r = None
+                if r is not None:
+                    out[i] = r
+        return out
 
     def account(self, unit, rec, obs, res):
         named = {}
@@ -279,11 +351,11 @@ class Run:
                                       f"{'body' if st['step'] == 0 else 'exit'} unreachable (vacuous invariant)")
         if len(self.samples) < 6 and obs:
             for ob in obs:
-                if ob.kind in ("post", "inv-step") and not z3.is_true(ob.goal):
+                if ob.kind in ("post", "inv-step") and not _goal_true(ob):
                     self.samples.append({"function": unit.name, "obligation": ob.name,
                                          "line": ob.line, "kind": ob.kind,
                                          "path_condition_conjuncts": len(ob.pc),
-                                         "goal": str(ob.goal)[:400]})
+                                         "goal": (ob.goal if isinstance(ob.goal, str) else str(ob.goal))[:400]})
                     break
         for (name, line), d in named.items():
             if not d["fail"]:
